@@ -340,6 +340,26 @@ def _spd(G, m0):
     return G @ G.T / n + m0 * np.eye(n)
 
 
+def _lowrank_parts(spec, n):
+    """(F, K, d) of a low-rank metric spec: F has full column rank by construction; for a down-date it is
+    scaled so that D - F K F' stays positive definite (||F K F'|| <= 0.5 min(d))."""
+    k = spec["k"]
+    F = 0.7 * A(spec["F"]).reshape(n, k) + np.eye(n, k)
+    K = _spd(A(spec["KG"]).reshape(k, k), 0.5) if spec.get("KG") is not None else np.eye(k)
+    d = A(spec["d"])
+    if spec.get("sign", 1) == -1:
+        nrm = np.linalg.norm(F @ K @ F.T, 2)
+        if nrm > 0.5 * d.min():
+            F = F * math.sqrt(0.5 * d.min() / nrm)
+    return F, K, d
+
+
+def _softabs_param(spec, n):
+    V, _ = np.linalg.qr(A(spec["G"]).reshape(n, n) + 2 * np.eye(n))
+    S = (V * A(spec["lam"])) @ V.T
+    return 0.5 * (S + S.T)
+
+
 def metric_dense(spec, n):
     """Dense reference of a constant metric spec (no mici involved)."""
     t = spec["type"]
@@ -367,13 +387,10 @@ def metric_dense(spec, n):
         M[n1:, n1:] = metric_dense(spec["b2"], n - n1)
         return M
     if t == "lowrank":
-        k = spec["k"]
-        F = A(spec["F"]).reshape(n, k)
-        K = _spd(A(spec["KG"]).reshape(k, k), 0.5) if spec.get("KG") is not None else np.eye(k)
-        return np.diag(A(spec["d"])) + spec.get("sign", 1) * F @ K @ F.T
+        F, K, d = _lowrank_parts(spec, n)
+        return np.diag(d) + spec.get("sign", 1) * F @ K @ F.T
     if t == "softabs_const":
-        S = A(spec["S"]).reshape(n, n)
-        return softabs_dense(0.5 * (S + S.T), spec["coeff"])
+        return softabs_dense(_softabs_param(spec, n), spec["coeff"])
     raise ValueError(t)
 
 
@@ -418,16 +435,12 @@ def build_metric(spec, n):
             blocks.append(b)
         return mm.PositiveDefiniteBlockDiagonalMatrix(blocks)
     if t == "lowrank":
-        k = spec["k"]
-        F = A(spec["F"]).reshape(n, k)
-        K = mm.DensePositiveDefiniteMatrix(_spd(A(spec["KG"]).reshape(k, k), 0.5)) \
-            if spec.get("KG") is not None else None
+        F, Kd, d = _lowrank_parts(spec, n)
+        K = mm.DensePositiveDefiniteMatrix(Kd) if spec.get("KG") is not None else None
         return mm.PositiveDefiniteLowRankUpdateMatrix(
-            mm.DenseRectangularMatrix(F), mm.PositiveDiagonalMatrix(A(spec["d"])), K,
-            sign=spec.get("sign", 1))
+            mm.DenseRectangularMatrix(F), mm.PositiveDiagonalMatrix(d), K, sign=spec.get("sign", 1))
     if t == "softabs_const":
-        S = A(spec["S"]).reshape(n, n)
-        return mm.SoftAbsRegularizedPositiveDefiniteMatrix(0.5 * (S + S.T), spec["coeff"])
+        return mm.SoftAbsRegularizedPositiveDefiniteMatrix(_softabs_param(spec, n), spec["coeff"])
     raise ValueError(t)
 
 
@@ -605,15 +618,11 @@ def metric_spec(draw, n, types=None, allow_down=False):
                 "KG": draw(st.one_of(st.none(), vec(k * k))), "sign": 1}
         if allow_down and draw(st.booleans()):
             spec["sign"] = -1
-            # keep D - F K F' positive definite: scale F so that ||F K F'|| <= 0.5 min(d)
-            F = A(spec["F"]).reshape(n, k)
-            K = _spd(A(spec["KG"]).reshape(k, k), 0.5) if spec["KG"] is not None else np.eye(k)
-            nrm = np.linalg.norm(F @ K @ F.T, 2)
-            scale = math.sqrt(0.5 * min(spec["d"]) / nrm) if nrm > 0 else 1.0
-            spec["F"] = list((F * min(1.0, scale)).ravel())
         return spec
     if t == "softabs_const":
-        return {"type": t, "S": draw(vec(n * n, -2.0, 2.0)), "coeff": draw(unit(0.3, 3.0))}
+        # symmetric parameter with eigenvalues bounded away from 0 (softabs is 0/0 at an exactly zero eigenvalue)
+        lam = draw(st.lists(st.one_of(unit(0.4, 2.5), unit(-2.5, -0.4)), min_size=n, max_size=n))
+        return {"type": t, "G": draw(vec(n * n)), "lam": lam, "coeff": draw(unit(0.3, 3.0))}
     raise ValueError(t)
 
 
